@@ -73,6 +73,10 @@ def cases(draw, tier="quick"):
         labels = list(draw(st.permutations(present))[: draw(st.integers(1, len(present)))]) + draw(
             st.lists(st.sampled_from(extra), min_size=1, max_size=2, unique=True)
         )
+    if lab["kind"] in ("int", "negint", "float", "floatint", "i2") and draw(st.integers(0, 5)) == 0:
+        # a long list of requested labels, most of them absent (numpy.isin / searchsorted change algorithm with its length)
+        base = 40 if lab["kind"] != "float" else 40.25
+        labels = labels + [base + i * (1 if lab["kind"] != "float" else 0.5) for i in range(draw(st.integers(14, 26)))]
     labels = list(draw(st.permutations(labels)))  # possibly unsorted
     if draw(st.booleans()):
         labels = sorted(labels)
